@@ -7,6 +7,7 @@ from . import wire as W
 MTUS = [576, 577, 1280, 1500, 1514, 4096, 9000, 9216]
 # every residue of (MTU - header) modulo the record sizes 6, 14 and 20 occurs in these two dense ranges:
 # "exactly fits", "one byte short", "one byte over" for station lists, Emit descriptors and QueryResp descriptors
+MTUS_TINY = [68, 69, 72, 100, 128, 150, 200, 205, 206, 207, 255, 256, 257, 300, 400, 500, 575]
 MTUS_DENSE = list(range(576, 616)) + list(range(1486, 1526)) + list(range(9196, 9217))
 GENS = [0, 1, 0x00FF, 0xFF00, 0xFFFF, 0x1234]
 BYTEVALS = [0x00, 0x01, 0x7F, 0x80, 0xFF]
